@@ -145,6 +145,14 @@ def run_scenario(defs, ops, watch):
     def emit(op):
         lines.append(op)
         obs.append(b.observe(watch))
+        # at every step: every call still waiting owns one timeout timer and one waiter, an ended call owns nothing
+        pending = sum(1 for tk in b.tasks.values() if not tk.done())
+        timers = sum(1 for _, lab in loop.armed_timers() if "handle_timeout" in lab)
+        timers += sum(1 for h in loop._ready if not h._cancelled and getattr(h._callback, "__name__", "") == "handle_timeout")
+        waiters = len(conn._read_exception_futures)
+        if (timers > pending or waiters > pending) and not any(k == "leak" for k, _ in bad):
+            bad.append(("leak", f"after {op!r}: {pending} call(s) still waiting but request-timers={timers} waiters={waiters}: "
+                                f"a call that ended (result / timeout / cancellation / connection loss) left something behind"))
 
     def closed():
         return conn.connection_state is ac.CONNECTION_STATE_CLOSED
@@ -269,6 +277,14 @@ def run_scenario(defs, ops, watch):
         if any(leftover.values()) or len(conn._read_exception_futures) or timers:
             bad.append(("leak", f"all calls ended but handlers={leftover} waiters={len(conn._read_exception_futures)} "
                                 f"request-timers={timers} remain"))
+    else:
+        # some calls are still waiting: each of them owns exactly one timeout timer and one waiter, the ended ones none
+        pending = sum(1 for tk in b.tasks.values() if not tk.done())
+        timers = sum(1 for _, lab in loop.armed_timers() if "handle_timeout" in lab)
+        waiters = len(conn._read_exception_futures)
+        if timers > pending or waiters > pending:
+            bad.append(("leak", f"{pending} call(s) still waiting but request-timers={timers} waiters={waiters}: a call that "
+                                f"ended (result / timeout / cancellation / connection loss) left something behind"))
     b.net.close()
     return lines, obs, bad, scans
 
